@@ -611,6 +611,181 @@ theorem aggregate_nonneg {d : Dist (List ℕ) K} (h : Nonneg d) : Nonneg (aggreg
 
 end tree
 
+
+/-! ### the physical reading law and its relation to what `detect` builds -/
+section law
+variable {K : Type} [Field K] [LinearOrder K] [IsStrictOrderedRing K]
+
+theorem closed_of_lt (w : ℕ) {k n : ℕ} (h : n < k) : (closed w k n : K) = 0 := by
+  rw [← condProb_eq_closed]; exact condProb_of_lt w h
+
+/-- `w` equally likely saturating wires hit by `n` photons, reading = min(clicks, `mx`):
+the closed form below `mx`, everything from `mx` up folded into `mx`, nothing above -/
+def readLaw (w mx n k : ℕ) : K :=
+  if k < mx then closed w k n else if k = mx then ∑ j ∈ Ico mx (n + 1), closed w j n else 0
+
+/-- `readLaw` is the law of `min(clicks, mx)` when `clicks` follows the closed form -/
+theorem readLaw_eq_pushforward (w mx n k : ℕ) :
+    (readLaw w mx n k : K) = ∑ j ∈ range (n + 1), if min j mx = k then (closed w j n : K) else 0 := by
+  unfold readLaw
+  by_cases h1 : k < mx
+  · rw [if_pos h1]
+    have : ∀ j, (min j mx = k) ↔ j = k := by intro j; omega
+    simp only [this]
+    rw [Finset.sum_ite_eq']
+    split
+    · rfl
+    · next h => rw [closed_of_lt]; simp at h; omega
+  · rw [if_neg h1]
+    by_cases h2 : k = mx
+    · subst h2
+      rw [if_pos rfl]
+      have : ∀ j, (min j k = k) ↔ k ≤ j := by intro j; omega
+      simp only [this]
+      rw [← Finset.sum_filter]
+      congr 1
+      ext j
+      simp only [Finset.mem_Ico, Finset.mem_filter, Finset.mem_range]
+      omega
+    · rw [if_neg h2]
+      symm
+      apply Finset.sum_eq_zero
+      intro j _
+      rw [if_neg]; omega
+
+theorem detectSpec_eq_readLaw (w mx : ℕ) {n : ℕ} (hn : 1 ≤ n) (k : ℕ) :
+    (detectSpec w mx n k : K) = readLaw w mx n k := by
+  unfold detectSpec readLaw tailSum
+  rcases Nat.lt_or_ge n mx with hlt | hge
+  · -- the cap is n
+    rw [Nat.min_eq_right hlt.le]
+    by_cases h1 : 1 ≤ k ∧ k < n
+    · rw [if_pos h1, if_pos (by omega)]
+    · rw [if_neg h1]
+      by_cases h2 : k = n
+      · subst h2
+        rw [if_pos rfl, if_pos hlt, Nat.Ico_succ_singleton, Finset.sum_singleton]
+      · rw [if_neg h2]
+        by_cases h3 : k < mx
+        · rw [if_pos h3]
+          rcases Nat.eq_zero_or_pos k with rfl | hk
+          · exact (closed_zero_left w hn).symm
+          · exact (closed_of_lt w (by omega)).symm
+        · rw [if_neg h3]
+          by_cases h4 : k = mx
+          · subst h4
+            rw [if_pos rfl, Finset.Ico_eq_empty (by omega), Finset.sum_empty]
+          · rw [if_neg h4]
+  · rw [Nat.min_eq_left hge]
+    by_cases h1 : 1 ≤ k ∧ k < mx
+    · rw [if_pos h1, if_pos h1.2]
+    · rw [if_neg h1]
+      by_cases h2 : k = mx
+      · subst h2
+        rw [if_pos rfl, if_neg (by omega)]
+      · rw [if_neg h2]
+        by_cases h3 : k < mx
+        · have : k = 0 := by omega
+          subst this
+          rw [if_pos h3]
+          exact (closed_zero_left w hn).symm
+        · rw [if_neg h3]
+
+theorem readLaw_nonneg (w mx n k : ℕ) : (0 : K) ≤ readLaw w mx n k := by
+  unfold readLaw
+  split
+  · exact closed_nonneg _ _ _
+  · split
+    · exact Finset.sum_nonneg fun _ _ => closed_nonneg _ _ _
+    · exact le_refl _
+
+/-- one photon at most, or one wire: exactly `min n 1` wires click -/
+theorem closed_point (w : ℕ) (hw : 0 < w) {n : ℕ} (h : n ≤ 1 ∨ w = 1) (j : ℕ) :
+    (closed w j n : K) = if j = min n 1 then 1 else 0 := by
+  rcases Nat.eq_zero_or_pos n with rfl | hn
+  · rcases Nat.eq_zero_or_pos j with rfl | hj
+    · simp [closed, surjCount]
+    · rw [closed_of_lt w hj, if_neg (by omega)]
+  · have hmin : min n 1 = 1 := by omega
+    rw [hmin]
+    have hz : ∀ i, i ≠ 1 → (closed w i n : K) = 0 := by
+      intro i hi
+      rcases Nat.eq_zero_or_pos i with rfl | hi0
+      · exact closed_zero_left w hn
+      · rcases h with h | h
+        · exact closed_of_lt w (by omega)
+        · subst h
+          simp [closed, surjCount, Nat.choose_eq_zero_of_lt (by omega : 1 < i)]
+    by_cases hj : j = 1
+    · subst hj
+      rw [if_pos rfl]
+      have hs := closed_sum_one (K := K) w hw n
+      rwa [Finset.sum_eq_single 1 (fun i _ hi => hz i hi)
+        (fun hnot => absurd (Finset.mem_range.mpr (by omega)) hnot)] at hs
+    · rw [if_neg hj]; exact hz j hj
+
+theorem readLaw_point (w : ℕ) (hw : 0 < w) {mx : ℕ} (hmx : 1 ≤ mx) {n : ℕ} (h : n ≤ 1 ∨ w = 1)
+    (k : ℕ) : (readLaw w mx n k : K) = if min n 1 = k then 1 else 0 := by
+  rw [readLaw_eq_pushforward]
+  simp only [closed_point w hw h]
+  rw [Finset.sum_eq_single (min n 1)]
+  · have : min (min n 1) mx = min n 1 := by omega
+    simp [this]
+  · intro j _ hj
+    simp [hj]
+  · intro hnot
+    exact absurd (Finset.mem_range.mpr (by omega)) hnot
+
+theorem detect_wired_small (w mx : ℕ) (minP : K) {n : ℕ} (h : n < 2 ∨ w = 1) :
+    (Det.wired w mx).detect minP n = .state (min n 1) := by
+  unfold Det.detect Det.type
+  by_cases hn : n < 2
+  · have : min n 1 = n := by omega
+    simp [hn, this]
+  · have hw : w = 1 := by tauto
+    have : min n 1 = 1 := by omega
+    simp [hn, hw, this]
+
+theorem detect_wired_big (w mx : ℕ) (minP : K) {n : ℕ} (hn : 2 ≤ n) (hw : w ≠ 1) :
+    (Det.wired w mx).detect minP n = .dist (detectWired w mx minP n) := by
+  unfold Det.detect Det.type
+  simp [hw, show ¬ n < 2 by omega]
+
+theorem mkDetector_some {w : ℕ} {maxd : Option ℕ} {d : Det} (h : mkDetector (some w) maxd = .ok d) :
+    0 < w ∧ d = .wired w (maxd.getD w) ∧ maxd.getD w ≤ w := by
+  unfold mkDetector at h
+  simp only at h
+  split at h
+  · cases h
+  · next hw =>
+    cases maxd with
+    | none => cases h; exact ⟨Nat.pos_of_ne_zero hw, rfl, le_refl _⟩
+    | some m =>
+      simp only at h
+      split at h
+      · cases h
+      · next hm =>
+        cases h
+        have : m ≤ w := by omega
+        exact ⟨Nat.pos_of_ne_zero hw, by simp [Nat.min_eq_left this], by simpa using this⟩
+
+end law
+
+/-! ### histories -/
+section hist
+
+theorem run_outputs_eq_map {S Op Out : Type} (step : S → Op → S × Out) (Inv : S → Prop) (f : Op → Out)
+    (hstep : ∀ s op, Inv s → Inv (step s op).1 ∧ (step s op).2 = f op) (s : S) (h : Inv s)
+    (ops : List Op) : (SM.run step s ops).2 = ops.map f := by
+  induction ops generalizing s with
+  | nil => rfl
+  | cons x xs ih =>
+    obtain ⟨h1, h2⟩ := hstep s x h
+    simp only [SM.run, List.map_cons]
+    rw [h2, ih _ h1]
+
+end hist
+
 /-! ### kernels, tensor product, `simulate_detectors` -/
 section sim
 variable {K : Type} [Field K] [LinearOrder K] [IsStrictOrderedRing K]
@@ -749,11 +924,14 @@ theorem listTensor_spec (ds : List (Dist ℕ K)) (hne : ds ≠ []) (hnn : ∀ d 
       obtain ⟨x, hx, rfl⟩ := he
       exact hd x hx
   | d1 :: d2 :: rest, _, hnn =>
-    unfold listTensor
+    have hunf : listTensor (d1 :: d2 :: rest) =
+        if (d1 :: d2 :: rest).any (·.isEmpty) then []
+        else innerTensor ((d1 :: d2 :: rest).map fun d => d.filter fun e => 0 < e.2) [] 1 [] := rfl
+    rw [hunf]
     split
     · next hany =>
       constructor
-      · simp only [List.any_eq_true] at hany
+      · rw [List.any_eq_true] at hany
         obtain ⟨d, hd, he⟩ := hany
         have : d = [] := by simpa using he
         subst this
@@ -788,7 +966,7 @@ theorem stateDist_mass_one {minP : K} (hmin : minP ≤ 0) (ds : List (AnyDet K))
   have hne' : List.zipWith (fun n d => AnyDet.kernel minP d n) s ds ≠ [] := by
     intro h
     have := congrArg List.length h
-    simp [hlen] at this
+    simp only [List.length_zipWith, hlen, Nat.min_self, List.length_nil] at this
     exact hne (List.length_eq_zero_iff.mp this)
   obtain ⟨m, nn⟩ := listTensor_spec _ hne' fun d hd => (hk d hd).2
   refine ⟨?_, nn⟩
